@@ -36,7 +36,7 @@ theorem split_wd_ann (f : Nat) : ∀ (ps : List Path), (∀ p ∈ ps, p.c.fam = 
     intro h
     have hf := h p List.mem_cons_self
     have ih' := ih (fun q hq => h q (List.mem_cons_of_mem _ hq))
-    obtain ⟨⟨fam, n, act⟩, hash⟩ := p
+    obtain ⟨⟨fam, n, act⟩, hash, grp⟩ := p
     simp only at hf
     subst hf
     cases act with
@@ -57,30 +57,28 @@ theorem flat_packV4 (o : Opts) (ps : List Path) (e : Bool) (hf : ∀ p ∈ ps, p
     rw [flatMap_flat_map Msg.wd4 (chWd 0) (fun _ => rfl),
       chunkN_flatten _ (one_le_maxN o _) _ _ (Nat.le_refl _)]
   -- cages
-  have hB : (((groupBy (fun a : Ann => (a.hash, a.r.attrs))
-        ((ps.filterMap annOf).filter (fun a => a.r.nh.isNone)).length
-        ((ps.filterMap annOf).filter (fun a => a.r.nh.isNone))).flatMap (fun g =>
-        (chunkN (maxN o g.1.2.len) g.2.length (g.2.map (·.n))).map (Msg.ann4 g.1.2))).flatMap flat).Perm
-      (((ps.filterMap annOf).filter (fun a => a.r.nh.isNone)).map (chAnn 0)) := by
+  have hB : (((groupBy (fun a : Ann => (a.hash, a.r.attrs, a.r.nh, a.grp))
+        ((ps.filterMap annOf).filter (fun a => nhIs4 a.r.nh)).length
+        ((ps.filterMap annOf).filter (fun a => nhIs4 a.r.nh))).flatMap (fun g =>
+        (chunkN (maxN o (g.1.2.1.len + synthNH g.1.2.2.1)) g.2.length (g.2.map (·.n))).map
+          (Msg.ann4 g.1.2.1 g.1.2.2.1))).flatMap flat).Perm
+      (((ps.filterMap annOf).filter (fun a => nhIs4 a.r.nh)).map (chAnn 0)) := by
     rw [List.flatMap_assoc]
-    have := groupBy_flatMap_perm (fun a : Ann => (a.hash, a.r.attrs))
-      (fun g => ((chunkN (maxN o g.1.2.len) g.2.length (g.2.map (·.n))).map (Msg.ann4 g.1.2)).flatMap flat)
-      (fun a => [chAnn 0 a]) _ ((ps.filterMap annOf).filter (fun a => a.r.nh.isNone)) (Nat.le_refl _)
+    have := groupBy_flatMap_perm (fun a : Ann => (a.hash, a.r.attrs, a.r.nh, a.grp))
+      (fun g => ((chunkN (maxN o (g.1.2.1.len + synthNH g.1.2.2.1)) g.2.length (g.2.map (·.n))).map
+          (Msg.ann4 g.1.2.1 g.1.2.2.1)).flatMap flat)
+      (fun a => [chAnn 0 a]) _ ((ps.filterMap annOf).filter (fun a => nhIs4 a.r.nh)) (Nat.le_refl _)
       (by
         intro g _ hk
-        rw [flatMap_flat_map (Msg.ann4 g.1.2) (fun n => ⟨0, n, some ⟨g.1.2, none⟩⟩) (fun _ => rfl),
+        rw [flatMap_flat_map (Msg.ann4 g.1.2.1 g.1.2.2.1) (fun n => ⟨0, n, some ⟨g.1.2.1, g.1.2.2.1⟩⟩) (fun _ => rfl),
           chunkN_flatten _ (one_le_maxN o _) _ _ (by simp)]
         rw [List.map_map]
-        have : ∀ a ∈ g.2, ((fun n => (⟨0, n, some ⟨g.1.2, none⟩⟩ : Change)) ∘ (fun x : Ann => x.n)) a = chAnn 0 a := by
+        have : ∀ a ∈ g.2, ((fun n => (⟨0, n, some ⟨g.1.2.1, g.1.2.2.1⟩⟩ : Change)) ∘ (fun x : Ann => x.n)) a = chAnn 0 a := by
           intro a ha
-          obtain ⟨hkey, hmem⟩ := hk a ha
-          have hnh : a.r.nh = none := by
-            have := (List.mem_filter.mp hmem).2
-            cases h : a.r.nh with
-            | none => rfl
-            | some _ => rw [h] at this; simp at this
-          have hat : a.r.attrs = g.1.2 := congrArg Prod.snd hkey
-          obtain ⟨n, ⟨at', nh⟩, hash⟩ := a
+          obtain ⟨hkey, _⟩ := hk a ha
+          have hat : a.r.attrs = g.1.2.1 := congrArg (fun k => k.2.1) hkey
+          have hnh : a.r.nh = g.1.2.2.1 := congrArg (fun k => k.2.2.1) hkey
+          obtain ⟨n, ⟨at', nh⟩, hash, grp⟩ := a
           simp only at hnh hat
           subst hnh; subst hat
           rfl
@@ -88,17 +86,17 @@ theorem flat_packV4 (o : Opts) (ps : List Path) (e : Bool) (hf : ∀ p ∈ ps, p
     refine this.trans ?_
     rw [flatMap_sing]
   -- RFC 5549 paths
-  have hC : (((ps.filterMap annOf).filter (fun a => !a.r.nh.isNone)).map
+  have hC : (((ps.filterMap annOf).filter (fun a => !nhIs4 a.r.nh)).map
         (fun a => Msg.reach 0 a.r.attrs a.r.nh [a.n])).flatMap flat
-      = ((ps.filterMap annOf).filter (fun a => !a.r.nh.isNone)).map (chAnn 0) := by
+      = ((ps.filterMap annOf).filter (fun a => !nhIs4 a.r.nh)).map (chAnn 0) := by
     rw [List.flatMap_map]
     have : ∀ a : Ann, flat (Msg.reach 0 a.r.attrs a.r.nh [a.n]) = [chAnn 0 a] := by
-      intro a; obtain ⟨n, ⟨at', nh⟩, hash⟩ := a; rfl
+      intro a; obtain ⟨n, ⟨at', nh⟩, hash, grp⟩ := a; rfl
     simp only [this]
     rw [flatMap_sing]
   rw [hA, hC]
   have hBC := (hB.append_left ((ps.filterMap wdOf).map (chWd 0))).append_right
-    (((ps.filterMap annOf).filter (fun a => !a.r.nh.isNone)).map (chAnn 0))
+    (((ps.filterMap annOf).filter (fun a => !nhIs4 a.r.nh)).map (chAnn 0))
   refine hBC.trans ?_
   rw [List.append_assoc, ← List.map_append]
   refine (List.Perm.append_left _ ((List.filter_append_perm _ _).map _)).trans ?_
@@ -138,7 +136,7 @@ theorem flat_packMP (o : Opts) (f : Nat) (ps : List Path) (e : Bool) (hf : ∀ p
             intro a ha
             obtain ⟨hkey, _⟩ := hk a ha
             simp only at hkey
-            obtain ⟨n, ⟨at', nh⟩, hash⟩ := a
+            obtain ⟨n, ⟨at', nh⟩, hash, grp⟩ := a
             subst hkey
             rfl
           rw [List.map_congr_left this, flatMap_sing])
